@@ -503,6 +503,12 @@ def diff_particle(a, b, tol_groups=0, state=True, path=''):
             out.append((path + k, a[k], b[k]))
     if not same(a['m0'], b['m0']):
         out.append((path + 'm0', a['m0'].tolist(), b['m0'].tolist()))
+    if a['dbm']['sol'] and b['dbm']['sol']:
+        # initial mass per compound, by NAME (a relabelled composition shows here even when both lists look alike)
+        ma = dict(zip(a['dbm']['composition'], np.ravel(a['m0']).tolist())) if len(a['dbm']['composition']) == len(np.ravel(a['m0'])) else None
+        mb = dict(zip(b['dbm']['composition'], np.ravel(b['m0']).tolist())) if len(b['dbm']['composition']) == len(np.ravel(b['m0'])) else None
+        if ma is None or mb is None or sorted(ma) != sorted(mb) or any(not same(ma[k], mb[k]) for k in ma):
+            out.append((path + 'm0_by_name', ma, mb))
     for k in ('lag_time', 'farfield') + (('integrate', 'sim_stored') if state else ()):
         if a[k] != b[k]:
             out.append((path + k, a[k], b[k]))
@@ -802,8 +808,10 @@ def report_losses(ctx, diffs, orig_particles, where, spec, prefix='', chem=None,
             continue
         key = None
         if odbm is not None and odbm['sol'] and chem is not None and list(odbm['composition']) != list(chem):
-            # the particle's own composition is not the list's chem_names: the writer ignores it.  The recorded keys
-            # are emitted only on their exact signature; every other mismatch keeps its generic key.
+            # `chem` is the first-seen-order union of the list's soluble compositions computed by the harness.  The
+            # recorded defect is about a particle whose OWN composition differs from it (the writer ignores the
+            # particle's composition).  A particle whose composition equals it must come back exactly: there, and
+            # in a list whose particles all share one composition, any relabelling is a violation.
             own, chem_l = list(odbm['composition']), list(chem)
             reordered = sorted(own) == sorted(chem_l) and len(set(own)) == len(own)
             subset = len(own) < len(chem_l) and all(c in chem_l for c in own)
@@ -814,6 +822,12 @@ def report_losses(ctx, diffs, orig_particles, where, spec, prefix='', chem=None,
             elif f == 'm0' and subset and len(own) == 1 and len(np.ravel(a)) == 1 and \
                     same(np.ravel(b), np.repeat(np.ravel(a), len(chem_l))):
                 key = 'not-restored:m0:broadcast'               # the single mass replicated into every slot
+            elif f == 'm0_by_name' and ((reordered and list(orig_particles[int(mobj.group(1))]['m0']) and b is not None and
+                                         [b.get(c) for c in chem_l] == np.ravel(orig_particles[int(mobj.group(1))]['m0']).tolist())
+                                        or (subset and len(own) == 1)):
+                # the same recorded defect seen by name: masses re-attached by position / replicated
+                ctx.count('consequence of the relabelled composition (m0 by name)')
+                continue
             elif f.startswith('dbm.') and (reordered or subset):
                 # property arrays follow the composition: necessarily in the other order / longer
                 ctx.count('consequence of the relabelled composition (%s)' % f)
@@ -828,6 +842,15 @@ def report_losses(ctx, diffs, orig_particles, where, spec, prefix='', chem=None,
             case['stand_alone_reproduction'] = REPRO[key]
         _viol(ctx, key, '%s: %s is not restored by save -> load (original %s, reloaded %s)' %
                       (where, field, str(a)[:80], str(b)[:80]), case)
+
+
+def harness_chem(ps):
+    """first-seen-order union of the soluble particles' compositions, computed here (NOT by get_chem_names)"""
+    out = []
+    for p in ps:
+        if p['dbm']['sol']:
+            out += [c for c in p['dbm']['composition'] if c not in out]
+    return out
 
 
 def zero_group_row(ps):
@@ -1146,7 +1169,11 @@ def check_sim(ctx, job, cdir, kind, m, spec, tag):
             _viol(ctx, 'array:%s:masked' % k, '%s: reloaded %s has masked entries' % (where, k), {'spec': sc.jsonable(spec)})
         ctx.evaluations += int(np.size(arr))
     report_losses(ctx, diff_model(kind, rec, rec2, GROUP_TOL, state=False), rec['particles'], where, spec,
-                  chem=rec.get('chem_names', rec.get('composition')), skip=skip)
+                  chem=harness_chem(rec['particles']) if kind != 'sbm' else rec['composition'], skip=skip)
+    if kind != 'sbm' and list(rec['chem_names']) != harness_chem(rec['particles']):
+        ctx.violation('not-restored:composition', '%s: the model\'s chem_names %r is not the first-seen-order union of the particles\' '
+                      'compositions %r (the file labels every soluble particle with it while m0 keeps the particle\'s order)'
+                      % (where, rec['chem_names'], harness_chem(rec['particles'])), {'spec': sc.jsonable(spec)})
     if kind == 'bpm':
         # the end-of-simulation state the file holds is overwritten by LagElement.update(t[0], q[0]) at load time:
         # not a definition field (recorded, not a violation of the property's predicate)
@@ -1287,11 +1314,11 @@ def sim_plan(ctx):
     quantifier's corners (0-3 tracers, tracking, currents), then random"""
     r = ctx.rng
     plan = [('sbm', {'kind': 'soluble'}), ('sbm', {'kind': 'inert'}),
-            ('bpm', {'kind': 'mixed', 'ntracers': 1, 'track': False, 'current': 0.2}),
-            ('bpm', {'kind': 'soluble', 'ntracers': r.choice([2, 3]), 'track': True, 'current': 0.1}),
+            ('bpm', {'kind': 'mixed', 'ntracers': 1, 'track': False, 'current': 0.2, 'unsorted': True}),
+            ('bpm', {'kind': 'soluble', 'ntracers': r.choice([2, 3]), 'track': True, 'current': 0.1, 'unsorted': True}),
             ('bpm', {'kind': 'inert', 'ntracers': r.choice([1, 2]), 'track': r.random() < 0.5, 'current': 0.05}),
             ('bpm', {'kind': r.choice(['inert', 'mixed']), 'ntracers': 0, 'track': False, 'current': 0.}),
-            ('spm', {'kind': 'soluble'}), ('spm', {'kind': 'inert'}), ('spm', {'kind': 'mixed'})]
+            ('spm', {'kind': 'soluble', 'unsorted': True}), ('spm', {'kind': 'inert'}), ('spm', {'kind': 'mixed', 'unsorted': True})]
     for i in range(ctx.n(0, 51)):
         plan.append((('sbm', 'bpm', 'spm', 'bpm', 'sbm', 'spm')[i % 6], {}))
     return plan
@@ -1366,6 +1393,7 @@ def _run(ctx, lean_ok, tmp):
     # ---- C. real simulations ---------------------------------------------------------------------
     mk = {'sbm': sc.sbm_spec, 'bpm': sc.bpm_spec, 'spm': sc.spm_spec}
     done = {}
+    unsorted_done = {}
     cov = {}
     for n, (kind, kw) in enumerate(sim_plan(ctx)):
         m = spec = None
@@ -1409,6 +1437,9 @@ def _run(ctx, lean_ok, tmp):
             ctx.sample({'simulation': kind, 'kind': spec['kind'], 'rows': int(len(rec[ARRAYS[kind][0]])),
                         'state vector': int(np.shape(rec[ARRAYS[kind][1]])[1]), 'particles': len(rec['particles'])})
         reached = check_sim(ctx, job, cdir, kind, m, spec, tag)
+        hc = harness_chem(rec['particles'])
+        if kind != 'sbm' and len(hc) >= 2 and hc != sorted(hc) and 'load' in reached:
+            unsorted_done[kind] = unsorted_done.get(kind, 0) + 1
         for st in reached:
             cov.setdefault((kind, spec['kind']), set()).add(st)
         if kind == 'bpm' and spec['track'] and any(p.farfield for p in m.particles) and 'reload' in reached:
@@ -1417,6 +1448,9 @@ def _run(ctx, lean_ok, tmp):
     for kind in ('sbm', 'bpm', 'spm'):
         ctx.oblige('at least one completed %s simulation was saved and reloaded (the check is not vacuous)' % kind,
                    done.get(kind, 0) > 0, 'none of the planned %s simulations completed' % kind)
+    for kind in ('bpm', 'spm'):
+        ctx.oblige('floor: %s simulations whose soluble composition is NOT alphabetically sorted were saved and reloaded (%d)'
+                   % (kind, unsorted_done.get(kind, 0)), unsorted_done.get(kind, 0) >= 1, '')
     # coverage matrix: model x particle kind, all the way to the second reload (recorded defects on the way are bypassed)
     need = [('sbm', 'soluble'), ('sbm', 'inert'), ('bpm', 'soluble'), ('bpm', 'inert'), ('bpm', 'mixed'), ('bpm', 'tracked'),
             ('spm', 'soluble'), ('spm', 'inert'), ('spm', 'mixed')]
